@@ -23,6 +23,9 @@ pub struct Case {
 	pub server: String,
 	/// system trust store (SSL_CERT_FILE): empty | right | decoy
 	pub system: String,
+	/// host part of the endpoint URL: name (localhost) | ip (127.0.0.1)
+	#[serde(default)]
+	pub url_host: String,
 }
 
 fn files_of(kind: &str, dir: &std::path::Path) -> Vec<String> {
@@ -66,13 +69,15 @@ fn exec_in(case: &Case, acmed: &std::path::Path, dir: &std::path::Path) -> Outco
 	let _ = std::fs::write(dir.join("bad.pem"), b"-----BEGIN CERTIFICATE-----\nnot base64 at all !!\n-----END CERTIFICATE-----\n");
 	let leaf_key = keys::gen("ecdsa-p256").unwrap();
 	let spki = leaf_key.public_key_to_der().unwrap();
+	let by_ip = case.url_host == "ip";
+	let own = if by_ip { GeneralName::Ip(vec![127, 0, 0, 1]) } else { GeneralName::Dns("localhost".to_string()) };
 	let (issuer, san, nb, na) = match case.server.as_str() {
-		"trusted" => (&right, "localhost", -3600, 86400 * 30),
-		"untrusted" => (&unknown, "localhost", -3600, 86400 * 30),
-		"otherhost" => (&right, "elsewhere.example", -3600, 86400 * 30),
-		_ => (&right, "localhost", -86400 * 30, -3600),
+		"trusted" => (&right, own, -3600, 86400 * 30),
+		"untrusted" => (&unknown, own, -3600, 86400 * 30),
+		"otherhost" => (&right, GeneralName::Dns("elsewhere.example".to_string()), -3600, 86400 * 30),
+		_ => (&right, own, -86400 * 30, -3600),
 	};
-	let chain_pem = match issuer.issue(&spki, &[GeneralName::Dns(san.to_string())], nb, na, 2) {
+	let chain_pem = match issuer.issue(&spki, &[san], nb, na, 2) {
 		Ok(p) => p,
 		Err(e) => return Outcome::Infra(e),
 	};
@@ -84,7 +89,7 @@ fn exec_in(case: &Case, acmed: &std::path::Path, dir: &std::path::Path) -> Outco
 		ab.add_extra_chain_cert(c.clone()).unwrap();
 	}
 	let ids = vec![("dns".to_string(), "t.c18.test".to_string())];
-	let ca = match MockCa::start_with(CaPlan { polls_authz: 0, polls_ready: 0, polls_valid: 0, ..CaPlan::default() }, vec![(bb::ident_key(&ids), "c1".into())], Some(TlsCfg { acceptor: Arc::new(ab.build()), host: "localhost".into() })) {
+	let ca = match MockCa::start_with(CaPlan { polls_authz: 0, polls_ready: 0, polls_valid: 0, ..CaPlan::default() }, vec![(bb::ident_key(&ids), "c1".into())], Some(TlsCfg { acceptor: Arc::new(ab.build()), host: if by_ip { "127.0.0.1".into() } else { "localhost".into() } })) {
 		Ok(c) => c,
 		Err(e) => return Outcome::Infra(e),
 	};
@@ -156,13 +161,122 @@ fn exec_in(case: &Case, acmed: &std::path::Path, dir: &std::path::Path) -> Outco
 	if chain_validates && !bad_file && !success {
 		return Outcome::fail("C18:trusted-endpoint-refused", format!("chain validates (sources {sources:?}, system {}), all files readable, but the attempt failed: {:?}; {d}\n{}", case.system, post.arg("status"), run.stderr_tail));
 	}
-	let mut classes = vec![format!("server={}", case.server), format!("system={}", case.system), format!("trusted={chain_validates}")];
+	let mut classes = vec![format!("server={}", case.server), format!("system={}", case.system), format!("trusted={chain_validates}"), format!("url_host={}", if by_ip { "ip" } else { "name" })];
 	if bad_file {
 		classes.push("bad-root-file".into());
 	}
 	let which: Vec<&str> = ["cli", "endpoint", "global"].iter().zip(sources.iter()).filter(|(_, s)| s.contains("right")).map(|(n, _)| *n).collect();
 	classes.push(format!("right-in={}", which.join("+")));
 	Outcome::pass(true, classes)
+}
+
+// ------------------------------------------------ two endpoints with different private roots in one process
+#[derive(Clone, Debug, Serialize, Deserialize)]
+pub struct TwoCase {
+	/// chain presented by endpoint B's server: own (issued under B's root) | foreign (issued under A's root)
+	pub b_chain: String,
+	/// where each endpoint's root is listed: endpoint | global-for-a (A's root global, B's at endpoint level)
+	pub layout: String,
+}
+
+fn tls_ca(issuer: &Issuer, cert_name: &str, ident: &str) -> Result<MockCa, String> {
+	let k = keys::gen("ecdsa-p256")?;
+	let pem = issuer.issue(&k.public_key_to_der().map_err(|e| e.to_string())?, &[GeneralName::Dns("localhost".into())], -3600, 86400 * 30, 2)?;
+	let certs = openssl::x509::X509::stack_from_pem(&pem).map_err(|e| e.to_string())?;
+	let mut ab = SslAcceptor::mozilla_intermediate(SslMethod::tls()).map_err(|e| e.to_string())?;
+	ab.set_private_key(&k).map_err(|e| e.to_string())?;
+	ab.set_certificate(&certs[0]).map_err(|e| e.to_string())?;
+	for c in certs.iter().skip(1) {
+		ab.add_extra_chain_cert(c.clone()).map_err(|e| e.to_string())?;
+	}
+	MockCa::start_with(
+		CaPlan { polls_authz: 0, polls_ready: 0, polls_valid: 0, ..CaPlan::default() },
+		vec![(bb::ident_key(&[("dns".to_string(), ident.to_string())]), cert_name.to_string())],
+		Some(TlsCfg { acceptor: Arc::new(ab.build()), host: "localhost".into() }),
+	)
+}
+
+fn exec_two(case: &TwoCase) -> Outcome {
+	let acmed = match build::acmed_inst() {
+		Ok(p) => p,
+		Err(e) => return Outcome::Infra(e),
+	};
+	let dir = scratch_dir("c18t");
+	let lay = Layout::new(&dir);
+	let coll = match HookCollector::start(&dir) {
+		Ok(c) => c,
+		Err(e) => return Outcome::Infra(e),
+	};
+	let (ra, rb) = match (Issuer::new(2), Issuer::new(2)) {
+		(Ok(a), Ok(b)) => (a, b),
+		_ => return Outcome::Infra("issuer".into()),
+	};
+	let _ = std::fs::write(dir.join("root-a.pem"), ra.root_pem());
+	let _ = std::fs::write(dir.join("root-b.pem"), rb.root_pem());
+	let ca_a = match tls_ca(&ra, "ca", "a.c18.test") {
+		Ok(c) => c,
+		Err(e) => return Outcome::Infra(e),
+	};
+	let ca_b = match tls_ca(if case.b_chain == "own" { &rb } else { &ra }, "cb", "b.c18.test") {
+		Ok(c) => c,
+		Err(e) => return Outcome::Infra(e),
+	};
+	let pa = dir.join("root-a.pem").display().to_string();
+	let pb = dir.join("root-b.pem").display().to_string();
+	let mut global = lay.global();
+	let mut ep_a = json!({"name": "ea", "url": ca_a.directory_url(), "tos_agreed": true});
+	if case.layout == "endpoint" {
+		ep_a["root_certificates"] = json!([pa]);
+	} else {
+		// A's root for everybody would make B's foreign chain legitimately trusted: only used with b_chain = own
+		global["root_certificates"] = json!([pa]);
+	}
+	let cfg = json!({
+		"global": global,
+		"endpoint": [ep_a, {"name": "eb", "url": ca_b.directory_url(), "tos_agreed": true, "root_certificates": [pb]}],
+		"account": [{"name": "a1", "contacts": [{"mailto": "a@c18.test"}]}],
+		"hook": bb::std_hooks(&coll.sock),
+		"certificate": [
+			{"name": "ca", "account": "a1", "endpoint": "ea", "key_type": "ecdsa-p256", "hooks": ["rec-http-01", "rec-http-01-clean", "rec-post"], "env": {bb::CERT_ENV: "ca"}, "identifiers": [{"dns": "a.c18.test", "challenge": "http-01"}]},
+			{"name": "cb", "account": "a1", "endpoint": "eb", "key_type": "ecdsa-p256", "hooks": ["rec-http-01", "rec-http-01-clean", "rec-post"], "env": {bb::CERT_ENV: "cb"}, "identifiers": [{"dns": "b.c18.test", "challenge": "http-01"}]},
+		],
+	});
+	let cfg_path = bb::write_config(&dir, "acmed.toml", &cfg);
+	let mut opts = bb::daemon_opts(&acmed, &dir, &cfg_path, "run");
+	opts.system_trust = true;
+	let sys_file = dir.join("system-store.pem");
+	let _ = std::fs::write(&sys_file, b"");
+	let empty_dir = dir.join("system-store-dir");
+	let _ = std::fs::create_dir_all(&empty_dir);
+	opts.env.push(("SSL_CERT_FILE".into(), sys_file.display().to_string()));
+	opts.env.push(("SSL_CERT_DIR".into(), empty_dir.display().to_string()));
+	let mut daemon = match Daemon::spawn(&opts) {
+		Ok(d) => d,
+		Err(e) => return Outcome::Infra(e),
+	};
+	coll.hold_when(Box::new(|r, _| bb::is_post(r)));
+	let ok = coll.wait_until(&|r| r.iter().filter(|x| bb::is_post(x)).count() >= 2, Duration::from_secs(60), &mut || daemon.state() != crate::daemon::ProcState::Alive);
+	let run = bb::finish_run(&coll, daemon, if ok { bb::WaitEnd::Reached } else { bb::WaitEnd::Timeout });
+	let (sa, sb) = (ca_a.snapshot(), ca_b.snapshot());
+	bb::cleanup(&dir);
+	let d = format!("{case:?}");
+	let b_trusted = case.b_chain == "own";
+	if !sb.log.is_empty() && !b_trusted {
+		return Outcome::fail("C18:request-to-untrusted:other-endpoints-root", format!("endpoint B lists only its own root, its server presents a chain issued under endpoint A's root, yet {} requests ({} signed POSTs) reached it; {d}", sb.log.len(), sb.log.iter().filter(|l| l.method == "POST").count()));
+	}
+	if !ok {
+		return Outcome::fail("C18:no-attempt-result", format!("{d}\n{}", run.stderr_tail));
+	}
+	let post = |c: &str| run.records.iter().find(|r| r.hook_id == format!("post-operation:{c}")).map(|r| (r.arg("is_success") == Some("true"), r.arg("status").unwrap_or("").to_string()));
+	match post("ca") {
+		Some((true, _)) => {}
+		other => return Outcome::fail("C18:trusted-endpoint-refused", format!("endpoint A (own root listed) failed: {other:?}; A saw {} requests; {d}", sa.log.len())),
+	}
+	match (post("cb"), b_trusted) {
+		(Some((true, _)), true) | (Some((false, _)), false) => {}
+		(other, _) => return Outcome::fail(if b_trusted { "C18:trusted-endpoint-refused" } else { "C18:false-success" }, format!("endpoint B: {other:?}, expected success = {b_trusted}; {d}")),
+	}
+	Outcome::pass(true, vec![format!("two-endpoints b_chain={} layout={}", case.b_chain, case.layout)])
 }
 
 fn cases(tier: Tier) -> Vec<Case> {
@@ -172,16 +286,23 @@ fn cases(tier: Tier) -> Vec<Case> {
 		for ep in core {
 			for gl in core {
 				for server in ["trusted", "untrusted", "otherhost", "expired"] {
-					out.push(Case { cli: cli.into(), endpoint: ep.into(), global: gl.into(), server: server.into(), system: "empty".into() });
+					out.push(Case { cli: cli.into(), endpoint: ep.into(), global: gl.into(), server: server.into(), system: "empty".into(), url_host: "name".into() });
 				}
 			}
+		}
+	}
+	// endpoint addressed by a literal IP address
+	for src in ["right", "decoy", "absent"] {
+		for server in ["trusted", "untrusted", "otherhost", "expired"] {
+			out.push(Case { cli: "absent".into(), endpoint: src.into(), global: "absent".into(), server: server.into(), system: "empty".into(), url_host: "ip".into() });
+			out.push(Case { cli: src.into(), endpoint: "absent".into(), global: "decoy".into(), server: server.into(), system: "empty".into(), url_host: "ip".into() });
 		}
 	}
 	// system store
 	for system in ["right", "decoy"] {
 		for server in ["trusted", "untrusted", "otherhost", "expired"] {
 			for src in ["absent", "decoy"] {
-				out.push(Case { cli: src.into(), endpoint: "absent".into(), global: "absent".into(), server: server.into(), system: system.into() });
+				out.push(Case { cli: src.into(), endpoint: "absent".into(), global: "absent".into(), server: server.into(), system: system.into(), url_host: "name".into() });
 			}
 		}
 	}
@@ -193,7 +314,7 @@ fn cases(tier: Tier) -> Vec<Case> {
 				for server in ["trusted", "untrusted"] {
 					let mut s = [other.to_string(), other.to_string(), "absent".to_string()];
 					s[pos] = bad.to_string();
-					out.push(Case { cli: s[0].clone(), endpoint: s[1].clone(), global: s[2].clone(), server: server.into(), system: "empty".into() });
+					out.push(Case { cli: s[0].clone(), endpoint: s[1].clone(), global: s[2].clone(), server: server.into(), system: "empty".into(), url_host: "name".into() });
 				}
 			}
 		}
@@ -204,7 +325,7 @@ fn cases(tier: Tier) -> Vec<Case> {
 				for gl in ["absent", "right", "decoy", "right+decoy"] {
 					for server in ["trusted", "untrusted", "otherhost", "expired"] {
 						for system in ["empty", "decoy"] {
-							out.push(Case { cli: cli.into(), endpoint: ep.into(), global: gl.into(), server: server.into(), system: system.into() });
+							out.push(Case { cli: cli.into(), endpoint: ep.into(), global: gl.into(), server: server.into(), system: system.into(), url_host: "name".into() });
 						}
 					}
 				}
@@ -215,12 +336,21 @@ fn cases(tier: Tier) -> Vec<Case> {
 }
 
 pub fn run(ctx: &Ctx, rep: &mut Report) {
-	rep.rule = "enumerated: each of the three root-certificate sources (--root-cert, endpoint root_certificates, global root_certificates) absent / holding the right root / holding a decoy root (27 combinations) x server chain {trusted, issued by an unknown root, trusted but for another host name, expired} with an empty system store; system store (SSL_CERT_FILE) holding the right or a decoy root; unreadable and malformed root files at each source with and without the right root elsewhere (thorough adds multi-file lists and a decoy system store). The mock CA is TLS-wrapped (leaf + intermediate presented). Oracle: (a) any HTTP request seen by the CA => the chain validates for the URL host under the model (right root listed or in the system store, server chain 'trusted'); (b) model says not trusted => the attempt reports failure and the CA saw zero requests; (c) model says trusted and all files readable => issuance succeeds (each source alone is honoured). Every case is non-trivial.".into();
+	rep.rule = "enumerated: each of the three root-certificate sources (--root-cert, endpoint root_certificates, global root_certificates) absent / holding the right root / holding a decoy root (27 combinations) x server chain {trusted, issued by an unknown root, trusted but for another host name, expired} with an empty system store; system store (SSL_CERT_FILE) holding the right or a decoy root; unreadable and malformed root files at each source with and without the right root elsewhere (thorough adds multi-file lists and a decoy system store); the endpoint addressed by name (localhost) or by a literal IP address (127.0.0.1, certificate with an iPAddress SAN); two endpoints with different private roots in one daemon, the second one presenting a chain issued under the first one's root. The mock CA is TLS-wrapped (leaf + intermediate presented). Oracle: (a) any HTTP request seen by the CA => the chain validates for the URL host under the model (right root listed or in the system store, server chain 'trusted'); (b) model says not trusted => the attempt reports failure and the CA saw zero requests; (c) model says trusted and all files readable => issuance succeeds (each source alone is honoured). Every case is non-trivial.".into();
 	run_replays::<Case>(ctx, rep, "matrix", &exec);
+	run_replays::<TwoCase>(ctx, rep, "two-endpoints", &exec_two);
 	if ctx.replay.is_some() {
 		return;
 	}
 	run_list(ctx, rep, "matrix", &cases(ctx.tier), default_par(), &exec);
+	let mut two = vec![];
+	for _ in 0..ctx.tier.pick(3, 10) {
+		// repeated: which endpoint is contacted first is up to the daemon's scheduling
+		two.push(TwoCase { b_chain: "foreign".into(), layout: "endpoint".into() });
+		two.push(TwoCase { b_chain: "own".into(), layout: "endpoint".into() });
+		two.push(TwoCase { b_chain: "own".into(), layout: "global-for-a".into() });
+	}
+	run_list(ctx, rep, "two-endpoints", &two, default_par(), &exec_two);
 	if let Some(s) = rep.sections.get_mut("matrix") {
 		s.exhaustive = Some(true);
 	}
